@@ -312,6 +312,10 @@ func (w *slotWorld) lengthSlotRule(r *Report, ruleL string) {
 				if strings.Contains(of, ".Type()") {
 					of = "next-payload"
 				}
+				if of != sl.Of && sameCountAsSum(sl.Of, of) {
+					// the number of elements of a concatenation of lists is the sum of the lists' lengths
+					of = sl.Of
+				}
 				have = append(have, of)
 				if of != sl.Of {
 					ok = false
@@ -323,4 +327,30 @@ func (w *slotWorld) lengthSlotRule(r *Report, ruleL string) {
 			r.bad(ruleL, fmt.Sprintf("%s @%d w%d", rec, k.off, k.oc), gs[0].Pos, "the encoder writes "+gs[0].Of+" into a slot the reference layout does not define as a length")
 		}
 	}
+}
+
+// sameCountAsSum: want is "count(A+B+...)" and got is "val:0 +1*len(A) +1*len(B) ..." over exactly the same
+// fields, each once: the element count of the concatenated lists, spelled as the sum of their lengths.
+func sameCountAsSum(want, got string) bool {
+	if !strings.HasPrefix(want, "count(") || !strings.HasSuffix(want, ")") || !strings.HasPrefix(got, "val:0 ") {
+		return false
+	}
+	ws := strings.Split(strings.TrimSuffix(strings.TrimPrefix(want, "count("), ")"), "+")
+	gs := strings.Fields(strings.TrimPrefix(got, "val:0 "))
+	if len(ws) != len(gs) {
+		return false
+	}
+	seen := map[string]int{}
+	for _, g := range gs {
+		if !strings.HasPrefix(g, "+1*len(") || !strings.HasSuffix(g, ")") {
+			return false
+		}
+		seen[strings.TrimSuffix(strings.TrimPrefix(g, "+1*len("), ")")]++
+	}
+	for _, w := range ws {
+		if seen[w] != 1 {
+			return false
+		}
+	}
+	return true
 }
